@@ -138,10 +138,15 @@ Stale(s) ==
 Tick == /\ now < MaxT /\ now' = now + 1 /\ last' = [op |-> "Tick", ret |-> [r |-> "ok"]]
         /\ UNCHANGED store
 
+\* the process restarts (or a second worker opens the same file): a new Cache object over the persistent store.  What was
+\* stored is still there -- and stays there when the new object stores something else.  (For the in-memory cache there is
+\* nothing to reopen; the replay skips the step.)
+Reopen == /\ last' = [op |-> "Reopen", ret |-> [r |-> "ok"]] /\ UNCHANGED <<store, now>>
+
 Mutators == \/ \E s \in Subj, i \in Src, a \in Ava, e \in Exps : Set(s, i, a, e)
             \/ \E s \in Subj, i \in Src : Reset(s, i)
             \/ \E s \in Subj : Delete(s)
-            \/ Tick
+            \/ Tick \/ Reopen
 
 Queries == \/ \E s \in Subj, i \in Src, c \in BOOLEAN : Get(s, i, c)
            \/ \E s \in Subj, E \in SUBSET Src, c \in BOOLEAN : GetIdentity(s, E, c)
